@@ -350,6 +350,7 @@ class EvalFunc:
         self.dm_decorators = []
         self.global_names = set()
         self.nonlocal_names = set()
+        self.parent_func = None
         self.local_names = None
         self.local_sym_table = {}
         self.doc_string = ast.get_docstring(func_def)
@@ -661,6 +662,7 @@ class EvalFunc:
         # determine the list of local variables, nonlocal and global
         # arguments are local variables too
         #
+        self.parent_func = ast_ctx.curr_func
         args = self.get_positional_args()
         if self.func_def.args.vararg:
             args.append(self.func_def.args.vararg.arg)
@@ -695,13 +697,17 @@ class EvalFunc:
                     self.local_sym_table[var_name] = EvalLocalVar(var_name)
                 continue
 
-            if (
-                var_name not in nonlocal_names
-                and ast_ctx.curr_func
-                and var_name in ast_ctx.curr_func.global_names
-            ):
-                # declared global in the enclosing function: not a closure variable
-                continue
+            if var_name not in nonlocal_names:
+                # the nearest enclosing function that binds the name decides; if it declares it global
+                # the name is not a closure variable
+                func = ast_ctx.curr_func
+                while func and var_name not in func.global_names:
+                    if var_name in func.local_names and var_name not in func.nonlocal_names:
+                        func = None
+                    else:
+                        func = func.parent_func
+                if func:
+                    continue
 
             if var_name in nonlocal_names:
                 sym_table_idx = 1
